@@ -54,9 +54,13 @@ REQUIRED = {
     "d1": 0.08, "d2": 0.15, "d3": 0.15, "d4": 0.05,
     "pt-upper-face": 0.2, "pt-lower-face": 0.2, "pt-node": 0.2, "pt-interior": 0.3,
     "multi-batch": 0.3, "repeat-query": 0.15, "box-float": 0.25, "box-dyadic": 0.25,
+    "adaptive-base-low": 0.07, "adaptive-base-interior": 0.08, "adaptive-base-upper": 0.07, "adaptive-base-shift": 0.07,
+    "adaptive-base-free": 0.07, "adaptive-base-default": 0.02, "adaptive-query-below-base": 0.25,
+    "adaptive-query-both-sides": 0.15,
 }
 
 FINDING_UPPER = "C41-gradient-upper-boundary"
+FINDING_DEFAULT_BASE = "C41-adaptive-default-base-point-multi-parameter"
 
 
 # ----------------------------------------------------------------------------- strategy
@@ -111,10 +115,18 @@ def _spec(draw):
             else:
                 pt.append(["n", 0, 0.0])
         pool.append(pt)
+    # base point of the adaptive table: the lower corner (as InterpolatedFunction does), another node of the
+    # standard grid (interior / upper corner), a grid-aligned point outside the box, an arbitrary (unaligned)
+    # point inside or outside the box, or the documented default (None -> origin)
+    amode = draw(st.sampled_from(["low", "node", "node", "upper", "shift", "free", "default"]))
+    abase = {"mode": amode,
+             "k": [draw(st.integers(0, npt[i] - 1)) if amode == "node" else draw(st.integers(-3, npt[i] + 2))
+                   for i in range(d)],
+             "off": [draw(st.floats(-1.5, 2.5, allow_nan=False, allow_subnormal=False)) for _ in range(d)]}
     nb = draw(st.integers(1, 3))
     batches = [draw(st.lists(st.integers(0, npool - 1), min_size=1, max_size=6)) for _ in range(nb)]
     return {"kind": kind, "d": d, "low": low, "width": width, "npt": npt, "coef": coef, "pool": pool,
-            "batches": batches}
+            "batches": batches, "abase": abase}
 
 
 def strategy(tier):
@@ -189,7 +201,31 @@ def _known_upper(s):
     return bool(np.any(_on_upper_face(s, pts[:, used])))
 
 
-KNOWN = {FINDING_UPPER: _known_upper}
+def _adaptive_base(s):
+    """Base point of the adaptive table (None = the constructor's default), d-vector."""
+    ab = s.get("abase") or {"mode": "low"}
+    low, high, npt = _box(s)
+    mode = ab["mode"]
+    if mode == "default":
+        return None
+    if mode == "low":
+        return low.copy()
+    if mode == "upper":
+        return high.copy()
+    if mode == "node":
+        return np.array([np.linspace(low[i], high[i], npt[i])[ab["k"][i]] for i in range(s["d"])])
+    h = (high - low) / (npt - 1)
+    if mode == "shift":
+        return low + np.array(ab["k"], dtype=float) * h
+    return low + np.array(ab["off"], dtype=float) * (high - low)
+
+
+def _known_default_base(s):
+    """Adaptive table built with the default base_point (None) for more than one parameter."""
+    return (s.get("abase") or {}).get("mode") == "default" and s["d"] >= 2
+
+
+KNOWN = {FINDING_UPPER: _known_upper, FINDING_DEFAULT_BASE: _known_default_base}
 
 
 # ----------------------------------------------------------------------------- check
@@ -207,10 +243,30 @@ def check(s):
         return _f(coef, args)
 
     table = pp.InterpolationTable(low.copy(), high.copy(), npt.copy(), func)
-    adaptive = pp.AdaptiveInterpolationTable(dx=h.copy(), base_point=low.copy(), function=func, dim=1)
+    base = _adaptive_base(s)
+    if base is None:
+        adaptive = pp.AdaptiveInterpolationTable(dx=h.copy(), function=func, dim=1)
+        base_eff = np.zeros(d)
+    else:
+        adaptive = pp.AdaptiveInterpolationTable(dx=h.copy(), base_point=base.copy(), function=func, dim=1)
+        base_eff = base
 
     pts = _pool_points(s)
     labels = [f"kind-{s['kind']}", f"d{d}", "f-linear" if linear else "f-multilinear"]
+    amode = (s.get("abase") or {"mode": "low"})["mode"]
+    if amode == "node":
+        ks = s["abase"]["k"]
+        interior = any(0 < ks[i] < s["npt"][i] - 1 for i in range(d))
+        labels.append("adaptive-base-interior" if interior else "adaptive-base-corner-node")
+    else:
+        labels.append(f"adaptive-base-{amode}")
+    used_all = sorted({j for b in s["batches"] for j in b})
+    below = bool(np.any(pts[:, used_all] < base_eff[:, None]))
+    above = bool(np.any(pts[:, used_all] > base_eff[:, None]))
+    if below:
+        labels.append("adaptive-query-below-base")
+    if below and above:
+        labels.append("adaptive-query-both-sides")
     labels.append("box-dyadic" if all(float(v * 8).is_integer() for v in s["low"] + s["width"]) else "box-float")
     used = sorted({j for b in s["batches"] for j in b})
     for j in used:
